@@ -12,9 +12,12 @@ and is handed to the solver of the next transaction):
                               self.related[idx] = self._get_related(var_set)
                               for var in var_set: self.var_to_conds[var].add(idx)
                           -> `p_append : pdeps -> list Z -> pdeps`;
-  * `Path.slice`          `self.sliced = self._get_related(var_set)` -> `p_slice`;
-  * `Exec.path_slice`     the sources of the state variables (balance, symbolic code chunks, stored
-                          values) are checked to be exactly those three; `self.path.slice(var_set)`.
+  * `Path.slice`          either the worklist closure over `var_to_conds` / the variables of the conditions
+                          (recognised statement by statement) -> `slice_visit`, `slice_loop` (with fuel), `p_slice`,
+                          or the older `self.sliced = self._get_related(var_set)` -> `p_slice` through get_related;
+  * `Exec.path_slice`     the sources of the state variables (balance, optionally the block fields other than
+                          the timestamp, symbolic code chunks, stored values) are checked to be exactly those;
+                          `self.path.slice(var_set)`; -> `state_vars_include_block : bool`.
 Sets are rendered as lists (membership is all that is used).
 """
 import ast
@@ -147,6 +150,47 @@ def py_get_related(prog, ret, related, v2c, var_set):
 
 APPEND_TAIL = ["var_set = self.get_var_set(cond)", "self.related[idx] = self._get_related(var_set)",
                "for var in var_set:\n    self.var_to_conds[var].add(idx)"]
+SLICE_GUARD = "if self.sliced is not None:\n    raise ValueError('already sliced')"
+SLICE_OLD = [SLICE_GUARD, "self.sliced = self._get_related(var_set)"]
+SLICE_CLOSURE = [SLICE_GUARD, "conds = list(self.conditions)", "sliced, seen, worklist = (set(), set(), list(var_set))",
+                 "while worklist:\n    var = worklist.pop()\n    if var in seen:\n        continue\n    seen.add(var)\n    for idx in self.var_to_conds[var]:\n"
+                 "        if idx not in sliced:\n            sliced.add(idx)\n            worklist.extend(self.get_var_set(conds[idx]))",
+                 "self.sliced = sliced"]
+PATH_SLICE_BLOCK = ["block = self.block",
+                    "for _field in (block.basefee, block.chainid, block.coinbase, block.difficulty, block.gaslimit, block.number):\n"
+                    "    var_set = itertools.chain(var_set, self.path.get_var_set(BV(_field).as_z3()))"]
+GALLINA_SLICE_OLD = """(* Path.slice: self.sliced = self._get_related(var_set) *)
+Definition p_slice (p : pdeps) (vs : list (list Z)) (var_set : list Z) (fuel : nat) : option (list nat) :=
+  Some (get_related (p_related p) (p_v2c p) var_set).
+"""
+GALLINA_SLICE_CLOSURE = """(* Path.slice, the body of the inner loop:
+     if idx not in sliced: sliced.add(idx); worklist.extend(self.get_var_set(conds[idx]))
+   (the worklist is a stack: its head is the end of the Python list) *)
+Definition slice_visit (cv : nat -> list Z) (st : list nat * list Z) (idx : nat) : list nat * list Z :=
+  if nmem idx (fst st) then st else (idx :: fst st, rev (cv idx) ++ snd st).
+
+(* Path.slice, the loop:
+     while worklist: var = worklist.pop(); if var in seen: continue; seen.add(var)
+                     for idx in self.var_to_conds[var]: <slice_visit>
+   fuel bounds the number of iterations (None: exhausted) *)
+Fixpoint slice_loop (fuel : nat) (v2c : Z -> list nat) (cv : nat -> list Z)
+                    (sliced : list nat) (seen work : list Z) : option (list nat) :=
+  match fuel with
+  | O => None
+  | S f =>
+      match work with
+      | [] => Some sliced
+      | var :: rest =>
+          if vmem var seen then slice_loop f v2c cv sliced seen rest
+          else let st := fold_left (slice_visit cv) (v2c var) (sliced, rest) in
+               slice_loop f v2c cv (fst st) (var :: seen) (snd st)
+      end
+  end.
+
+(* Path.slice: conds = list(self.conditions); sliced, seen, worklist = set(), set(), list(var_set); <loop>; self.sliced = sliced *)
+Definition p_slice (p : pdeps) (vs : list (list Z)) (var_set : list Z) (fuel : nat) : option (list nat) :=
+  slice_loop fuel (p_v2c p) (fun idx => nth idx vs []) [] [] (rev var_set).
+"""
 PATH_SLICE = ["var_set = self.path.get_var_set(self.balance)",
               "for _contract in self.code.values():\n    _code = _contract._code\n    for _chunk in _code.chunks.values():\n        if isinstance(_chunk, SymbolicChunk):\n"
               "            var_set = itertools.chain(var_set, self.path.get_var_set(_chunk.data))",
@@ -172,13 +216,24 @@ def translate(text):
         if "related" in s or "var_to_conds" in s or s.startswith("idx"):
             raise TranslateError(f"Path.append: unexpected statement touching the dependency tables: {s}")
     # Path.slice
-    sl = [ast.unparse(s) for s in _body(find_function(tree, "slice", cls="Path"))]
-    if sl != ["if self.sliced is not None:\n    raise ValueError('already sliced')", "self.sliced = self._get_related(var_set)"]:
-        raise TranslateError("Path.slice: body differs from the modelled shape:\n" + "\n".join(sl))
+    slice_fn = find_function(tree, "slice", cls="Path")
+    if [a.arg for a in slice_fn.args.args] != ["self", "var_set"]:
+        raise TranslateError("Path.slice: expected parameters (self, var_set)")
+    sl = [ast.unparse(s) for s in _body(slice_fn)]
+    if sl == SLICE_CLOSURE:
+        closure, gal_slice = True, GALLINA_SLICE_CLOSURE
+    elif sl == SLICE_OLD:
+        closure, gal_slice = False, GALLINA_SLICE_OLD
+    else:
+        raise TranslateError("Path.slice: body differs from the modelled shapes:\n" + "\n".join(sl))
     # Exec.path_slice
     ps = [ast.unparse(s) for s in _body(find_function(tree, "path_slice", cls="Exec"))]
-    if ps != PATH_SLICE:
-        raise TranslateError("Exec.path_slice: body differs from the modelled shape:\n" + "\n".join(ps))
+    if ps == PATH_SLICE[:1] + PATH_SLICE_BLOCK + PATH_SLICE[1:]:
+        with_block = True
+    elif ps == PATH_SLICE:
+        with_block = False
+    else:
+        raise TranslateError("Exec.path_slice: body differs from the modelled shapes:\n" + "\n".join(ps))
     gen = f"""(* GENERATED by translate/t_pathslice.py from src/halmos/sevm.py (Path._get_related, Path.append, Path.slice) -- do not edit *)
 From Coq Require Import ZArith List Bool.
 From HV Require Import Model.PathSliceModel.
@@ -201,10 +256,11 @@ Definition p_append (p : pdeps) (var_set : list Z) : pdeps :=
 (* a path whose conditions have the variable sets vs, appended in order *)
 Definition p_build (vs : list (list Z)) : pdeps := fold_left p_append vs p_empty.
 
-(* Path.slice: self.sliced = self._get_related(var_set) *)
-Definition p_slice (p : pdeps) (var_set : list Z) : list nat := get_related (p_related p) (p_v2c p) var_set.
+{gal_slice}
+(* Exec.path_slice: are the variables of the block fields (all but the timestamp) state variables? *)
+Definition state_vars_include_block : bool := {str(with_block).lower()}.
 """
-    return gen, {"prog": prog, "ret": ret}
+    return gen, {"prog": prog, "ret": ret, "closure": closure}
 
 
 def selfcheck(info):
@@ -240,7 +296,24 @@ def selfcheck(info):
             continue
         sv = r.sample(range(6), r.randint(0, 3))
         p.slice([xs[v] for v in sv])
-        mine = py_get_related(info["prog"], info["ret"], related, v2c, sv)
+        if info["closure"]:
+            # the modelled loop, in Python
+            mine, seen, work = set(), set(), list(sv)
+            cvs = {}
+            for v, idxs in v2c.items():
+                for i in idxs:
+                    cvs.setdefault(i, set()).add(v)
+            while work:
+                var = work.pop()
+                if var in seen:
+                    continue
+                seen.add(var)
+                for i in v2c.get(var, ()):
+                    if i not in mine:
+                        mine.add(i)
+                        work.extend(cvs[i])
+        else:
+            mine = py_get_related(info["prog"], info["ret"], related, v2c, sv)
         if set(p.sliced) != mine:
             bad.append(f"Path.slice (trial {trial}, state variables {sv}): implementation {sorted(p.sliced)}, translated {sorted(mine)}")
     return bad[:3]
